@@ -1753,6 +1753,25 @@ TEMPLATE_CORPUS = [
     "{% assign q = 1, 2, 3 %}{{ q | join: '-' }}{% echo q | first %}",
 ]
 
+# Quoted path segments with every escape, in both quote kinds, in {% liquid %}
+# line statements (token printer: PathToken.__str__ / _quote_escaped) and in
+# ordinary tags and output (AST printer: Path.__str__ / _string_repr).
+_DQ_SEGMENTS = ['x\\"y', 'say \\"hi\\"', "it's", "a\\\\b", "l\\nm", "\\u0041b", 'q\\"\\\\\\"', "'\\\"", "\\\\",
+                "\\t\\r\\b\\f\\/", "\\ud83d\\ude00", "\\$", "a b"]
+_SQ_SEGMENTS = ["x\\'y", 'say "hi"', "a\\\\b", "l\\nm", "\\u0041b", "\\'\\\\", '"', "\\'\"", "\\\\\\'",
+                "\\t\\r\\b\\f\\/", "\\u00e9", "\\$", "a b"]
+for _q, _segs in (('"', _DQ_SEGMENTS), ("'", _SQ_SEGMENTS)):
+    for _seg in _segs:
+        _p = f"[{_q}{_seg}{_q}]"
+        TEMPLATE_CORPUS.append(
+            "{% liquid echo a" + _p + "\n assign z = labels" + _p + ".k | default: b" + _p + _p + "\n"
+            " if " + _p + " == a.b" + _p + "\n  echo z\n endif %}")
+        TEMPLATE_CORPUS.append(
+            "{% echo a" + _p + " %}{{ labels" + _p + ".k | default: b" + _p + _p + " }}"
+            "{% if " + _p + " == a.b" + _p + " %}y{% endif %}{% for i in a" + _p + " %}{{ i }}{% endfor %}")
+    TEMPLATE_CORPUS.append("{% liquid echo a" + "".join(f"[{_q}{x}{_q}]" for x in _segs) + " %}")
+    TEMPLATE_CORPUS.append("{{ a" + "".join(f"[{_q}{x}{_q}]" for x in _segs) + " }}")
+
 # Known findings: the recorded witnesses are re-observed on every run.
 KNOWN_WITNESSES: list[tuple[str, str, str]] = []   # (signature, source, what): none at present
 
